@@ -3,7 +3,7 @@ from .hist import run_history, U_C
 from .skeletons import UN3
 
 LEVEL = 'model_checking'
-BUDGET_S = {'quick': 220, 'thorough': 1200}
+BUDGET_S = {'quick': 280, 'thorough': 1200}
 BOUNDS = {
     'quick': 'universe U7 + c (cache at c/cache, or two levels deep at c/s/cache, so the build may create the cache directories); clean after commits, after '
              'rollbacks, after external tampering (files put into created directories, outputs deleted/modified, swaps), '
